@@ -118,7 +118,6 @@ pub fn default_guards() -> Vec<String> {
         "drop_table_inside_session",             // D6
         "concurrent_writers_same_row",           // D8
         "concurrent_inserts_same_key",           // D10
-        "failing_multi_row_statement_in_session", // D23
         "update_on_table_with_unique_index",     // D7
         "delete_of_updated_row_in_multi_statement_txn", // D25
         "unique_key_reuse_while_session_open",   // U2
